@@ -53,6 +53,10 @@ func c13Stmt(w *world, kind string) stmt {
 	case "update-refused-at-third-row":
 		// t4 holds three rows, the third one long: the UPDATE changes two rows and is refused at the third
 		return stmt{SQL: fmt.Sprintf("UPDATE t4 SET e = '%s'", strings.Repeat("w", 120)), Kind: "update", Table: "t4", MustFail: true, apply: func(*mModel, int) {}}
+	case "insert-refused-at-second-row":
+		// the first row is accepted and changes a page, the second one is over the size limit
+		n := w.model.Tables["t1"].Inserted
+		return stmt{SQL: fmt.Sprintf("INSERT INTO t1 VALUES (%d, 'r%d'), (%d, '%s')", n+1, n+1, n+2, strings.Repeat("L", 420)), Kind: "insert", Table: "t1", MustFail: true, apply: func(*mModel, int) {}}
 	case "update":
 		return mkUpdate(w.model, "t1", seqPred{"<=", w.model.Tables["t1"].Inserted / 2})
 	case "delete":
@@ -92,6 +96,7 @@ func runC13(env *lib.Env, rep *lib.Report) {
 		// a statement refused half way: whatever it does about the rows it has already changed, it must not let them
 		// reach the data file ahead of log records it writes later
 		{"update-refused-at-third-row", "c14:t4k3", []string{"update-refused-at-third-row"}, 2, 0, false, true, false},
+		{"insert-refused-at-second-row", "t1x8", []string{"insert-refused-at-second-row"}, 2, 0, false, true, false},
 		// the CREATE TABLE that makes the page table grow a level (its seventh user table)
 		{"create/7th-table", "six-tables", []string{"create"}, 2, 0, false, false, false},
 		// the store opened without log fsync: durability is weaker, the order "log before pages" is not
